@@ -100,7 +100,7 @@ Lemma notify_trig_spec s t :
   (forall x, In x (st_queue (notify_trig s t)) <-> In x (st_queue s) \/ In x (subs_of t (st_subs s))) /\
   (NoDup (st_queue s) -> NoDup (st_queue (notify_trig s t))).
 Proof.
-  unfold notify_trig.
+  unfold notify_trig, notify_trig_g.
   set (s' := mkState _ _ _ _ _ _ _ _ _).
   destruct (fold_wake (subs_of t (st_subs s)) s') as [A [B [Cq D]]].
   subst s'. cbn [st_subs st_srcs st_queue] in *.
@@ -250,6 +250,7 @@ Proof.
       exists (pth k). split; [right; apply in_map_iff; exists k; split; [reflexivity | exact Hk] | exact H].
     + intros [r' [[<-|Hr] H]]; [left; exact H|]. apply in_map_iff in Hr. destruct Hr as [k [<- Hk]].
       right. exists k. split; [exact Hk | rewrite Hg; exact H].
+  - exists [r_segs r]. intros t. cbn [fst In]. split; [intros H; exists (r_segs r); auto | intros [r' [[<-|[]] H]]; exact H].
 Qed.
 
 (** what one effect run does to the subscription state *)
@@ -261,12 +262,12 @@ Lemma run_effect_spec sh kc s e rd :
     (forall x t, sub_in s' x t <-> (sub_in s x t /\ ~ (x = e /\ src_in s e t)) \/ (x = e /\ In t tr)) /\
     (exists rs, forall t, In t tr <-> exists r, In r rs /\ In t (track_field r)).
 Proof.
-  unfold run_effect. destruct (walk (root_reached sh s) (snd rd) 0) as [r j].
-  set (full := Nat.eqb j (length (snd rd))).
+  unfold run_effect. destruct (walk (root_reached sh s) (rd_chain rd) 0) as [r j].
+  set (full := Nat.eqb j (length (rd_chain rd))).
   set (res := if full then _ else _).
   assert (Hres : exists rs, forall t, In t (fst (fst res)) <-> exists r', In r' rs /\ In t (track_field r')).
   { subst res. destruct full.
-    - destruct (fst rd); [destruct (r_val r) as [v|]|].
+    - destruct (Nat.eqb (rd_how rd) 1); [destruct (r_val r) as [v|]|].
       + destruct (iterate_reads kc r v) as [rs Hrs]. exists rs. intros t.
         destruct (iterate kc r v) as [[tr0 val0] km0]. exact (Hrs t).
       + exists [r_segs r]. intros t. cbn [fst In]. split; [intros H; exists (r_segs r); auto | intros [r' [[<-|[]] H]]; exact H].
@@ -329,12 +330,12 @@ Proof.
   intros x Hx. apply in_seq. specialize (Hlt x Hx). lia.
 Qed.
 
-Lemma drain_consistent n sh readers sched kc : forall fuel s,
+Lemma drain_consistent n sh readers sched kc : n = length readers -> forall fuel s,
   consistent n s -> all_read s -> length (st_queue s) <= fuel ->
   consistent n (drain fuel sh readers sched kc s) /\ all_read (drain fuel sh readers sched kc s) /\
   st_queue (drain fuel sh readers sched kc s) = [].
 Proof.
-  induction fuel as [|fuel IH]; intros s Hc Hall Hlen.
+  intros Hn. induction fuel as [|fuel IH]; intros s Hc Hall Hlen.
   - cbn [drain]. destruct (st_queue s) eqn:Q; [auto | cbn [length] in Hlen; lia].
   - cbn [drain]. destruct (st_queue s) as [|e0 q0] eqn:Q; [auto|].
     set (pick := match sched with [] => (0, st_spos s) | _ :: _ => _ end).
@@ -348,20 +349,23 @@ Proof.
     assert (Nd' : NoDup (e :: q)) by (eapply Permutation_NoDup; [exact Hp | exact Nd]).
     inversion Nd' as [|? ? Heq Ndq]; subst.
     set (s1 := mkState _ _ _ _ q _ _ spos _).
-    assert (Hrun : consistent n (run_effect sh kc s1 e (nth e readers (false, []))) /\
-                   all_read (run_effect sh kc s1 e (nth e readers (false, [])))).
+    assert (Hen : e < length readers).
+    { apply Ql. apply (Permutation_in _ (Permutation_sym Hp)). left. reflexivity. }
+    apply Nat.ltb_lt in Hen. rewrite Hen. apply Nat.ltb_lt in Hen.
+    assert (Hrun : consistent (length readers) (run_effect sh kc s1 e (nth e readers no_reader)) /\
+                   all_read (run_effect sh kc s1 e (nth e readers no_reader))).
     { apply run_effect_consistent; subst s1; unfold sub_in, src_in in *; cbn [st_subs st_srcs st_queue] in *.
       - exact Ia.
       - intros x t Hne Hq Hs. apply Ib; [|exact Hs]. intros Hin.
         apply (Permutation_in _ Hp) in Hin. destruct Hin as [->|Hin]; [congruence | exact (Hq Hin)].
       - exact Ndq.
       - exact Heq.
-      - apply Ql. apply (Permutation_in _ (Permutation_sym Hp)). left. reflexivity.
+      - exact Hen.
       - intros x Hx. apply Ql. apply (Permutation_in _ (Permutation_sym Hp)). right. exact Hx.
       - exact Sl.
       - exact Hall. }
     destruct Hrun as [Hc1 Ha1]. apply IH; [exact Hc1 | exact Ha1|].
-    destruct (run_effect_spec sh kc s1 e (nth e readers (false, []))) as [tr [Qq _]].
+    destruct (run_effect_spec sh kc s1 e (nth e readers no_reader)) as [tr [Qq _]].
     rewrite Qq. subst s1. cbn [st_queue]. apply Permutation_length in Hp. cbn [length] in *. lia.
 Qed.
 
@@ -383,18 +387,22 @@ Proof.
   - exact Hq.
 Qed.
 
-Lemma drain_quiescent n sh readers sched kc s :
-  consistent n s -> all_read s -> quiescent n (drain n sh readers sched kc s).
+Lemma drain_quiescent sh readers sched kc s :
+  consistent (length readers) s -> all_read s ->
+  quiescent (length readers) (drain (length readers) sh readers sched kc s).
 Proof.
-  intros Hc Ha. apply drain_consistent; [exact Hc | exact Ha | apply consistent_queue_length; exact Hc].
+  intros Hc Ha. apply drain_consistent; [reflexivity | exact Hc | exact Ha | apply consistent_queue_length; exact Hc].
 Qed.
+
+Lemma notify_all_g_wake s ts : notify_all_g wake s ts = notify_all s ts.
+Proof. reflexivity. Qed.
 
 (** the shape of a successful write: a change of value / KeyMap, then the notifications of its guard *)
 Lemma do_set_true sh kc s chain new s1 :
   do_set sh kc s chain new = (s1, true) ->
   exists k p v' km, s1 = notify_all (with_val_keys s v' km) (notified k p).
 Proof.
-  unfold do_set. destruct (walk (root_reached sh s) chain 0) as [r j].
+  unfold do_set, do_set_g. rewrite ?notify_all_g_wake. destruct (walk (root_reached sh s) chain 0) as [r j].
   destruct (negb (Nat.eqb j (length chain))); [intros H; inversion H|].
   destruct (r_val r); [|intros H; inversion H].
   intros H. inversion H. eauto.
@@ -404,7 +412,8 @@ Lemma do_set_pre n sh kc s chain new :
   consistent n s -> all_read s ->
   consistent n (fst (do_set sh kc s chain new)) /\ all_read (fst (do_set sh kc s chain new)).
 Proof.
-  intros Hc Ha. unfold do_set. destruct (walk (root_reached sh s) chain 0) as [r j].
+  intros Hc Ha. unfold do_set, do_set_g. destruct (walk (root_reached sh s) chain 0) as [r j].
+  rewrite ?notify_all_g_wake.
   destruct (negb (Nat.eqb j (length chain))); cbn [fst]; [auto|].
   destruct (r_val r); cbn [fst].
   - split.
@@ -422,10 +431,10 @@ Lemma do_patch_pre n sh s chain new :
   consistent n s -> all_read s ->
   consistent n (fst (do_patch sh s chain new)) /\ all_read (fst (do_patch sh s chain new)).
 Proof.
-  intros Hc Ha. unfold do_patch. destruct (walk (root_reached sh s) chain 0) as [r j].
+  intros Hc Ha. unfold do_patch, do_patch_g. destruct (walk (root_reached sh s) chain 0) as [r j].
   destruct (negb (Nat.eqb j (length chain))); cbn [fst]; [auto|].
   destruct (r_val r) as [old|]; cbn [fst].
-  - destruct (patch_val (r_sh r) old new (r_segs r)) as [v ps]. cbn [fst]. split.
+  - destruct (patch_val (r_sh r) old new (r_segs r)) as [v ps]. cbn [fst]. rewrite ?notify_all_g_wake. split.
     + apply notify_all_consistent. eapply consistent_ext; [| | |exact Hc]; reflexivity.
     + eapply all_read_ext; [|exact Ha].
       destruct (notify_all_spec (concat (map triggers_for_path ps))
@@ -444,7 +453,8 @@ Qed.
 Lemma do_step_quiescent sh readers sched kc s h :
   quiescent (length readers) s -> quiescent (length readers) (snd (do_step sh readers sched kc s h)).
 Proof.
-  intros Hq. pose proof Hq as [Hc [Ha Hq0]]. unfold do_step. destruct h as [chain v|chain v|chain|chain ks|e|].
+  intros Hq. pose proof Hq as [Hc [Ha Hq0]]. unfold do_step, do_step_g. change (do_set_g wake) with do_set. change (do_patch_g wake) with do_patch.
+  destruct h as [chain v|chain v|chain|chain ks|e|].
   - destruct (do_set_pre (length readers) sh kc s chain v Hc Ha) as [C1 A1].
     destruct (do_set sh kc s chain v) as [s1 ok]. cbn [fst] in *.
     apply report_quiescent, drain_quiescent; assumption.
@@ -473,8 +483,9 @@ Qed.
 Lemma do_steps_quiescent sh readers sched : forall hs kcs s,
   quiescent (length readers) s -> quiescent (length readers) (snd (do_steps sh readers sched kcs s hs)).
 Proof.
-  induction hs as [|h hs IH]; intros kcs s Hq; cbn [do_steps]; [exact Hq|].
+  induction hs as [|h hs IH]; intros kcs s Hq; unfold do_steps; cbn [do_steps_g]; fold (do_steps sh readers sched); [exact Hq|].
   pose proof (do_step_quiescent sh readers sched (hd ([], []) kcs) s h Hq) as H1.
+  change (do_step_g wake) with do_step.
   destruct (do_step sh readers sched (hd ([], []) kcs) s h) as [o s1]. cbn [snd] in H1.
   specialize (IH (tl kcs) s1 H1).
   destruct (do_steps sh readers sched (tl kcs) s1 hs) as [os s2]. exact IH.
@@ -531,7 +542,7 @@ Qed.
 Example sim_nontrivial :
   let sh := SStruct [SInt; SStruct [SInt; SInt]] in
   let v := Lst [Num 1%Z; Lst [Num 2%Z; Num 3%Z]] in
-  let readers := [(false, []); (false, [Fld 0]); (false, [Fld 1]); (false, [Fld 1; Fld 0]); (false, [Fld 1; Fld 1])] in
+  let readers := [mkReader 0 0 []; mkReader 0 0 [Fld 0]; mkReader 0 0 [Fld 1]; mkReader 0 0 [Fld 1; Fld 0]; mkReader 0 0 [Fld 1; Fld 1]] in
   let s := after sh readers [] [] v [HSet [Fld 0] (Num 5%Z)] in
   st_queue (fst (do_set sh ([], []) s [Fld 1; Fld 0] (Num 7%Z))) = [0; 2; 3].
 Proof. vm_compute. reflexivity. Qed.
@@ -557,7 +568,7 @@ Proof.
   - exists []. rewrite app_nil_r. reflexivity.
   - destruct (IH (notify_trig s t)) as [x Hx].
     assert (Hy : exists y, st_queue (notify_trig s t) = st_queue s ++ y).
-    { unfold notify_trig.
+    { unfold notify_trig, notify_trig_g.
       destruct (fold_wake_prefix (subs_of t (st_subs s))
                   (mkState (st_val s) (st_keys s) (subs_set t [] (st_subs s)) (st_srcs s) (st_queue s)
                            (st_wakes s) (st_runs s) (st_spos s) (st_last s))) as [y Hy].
@@ -732,7 +743,7 @@ Example keyed_reader_follows_key_refuted :
   let it k n := Lst [Num k; Num n] in
   let v := Lst [Lst [it 7%Z 70%Z; it 8%Z 80%Z; it 9%Z 90%Z]] in
   let v' := Lst [Lst [it 9%Z 90%Z; it 8%Z 80%Z; it 7%Z 70%Z]] in
-  let s := after sh [(false, [Fld 0; Key 7%Z])] [] [] v [HSet [] v'] in
+  let s := after sh [mkReader 0 0 [Fld 0; Key 7%Z]] [] [] v [HSet [] v'] in
   r_val (fst (walk (root_reached sh s) [Fld 0; Key 7%Z] 0)) = Some (it 9%Z 90%Z).
 Proof. vm_compute. reflexivity. Qed.
 
@@ -791,7 +802,109 @@ Qed.
 Example ancestor_first_refuted :
   let sh := SStruct [SInt; SStruct [SInt; SInt]] in
   let v := Lst [Num 1%Z; Lst [Num 2%Z; Num 3%Z]] in
-  let readers := [(false, [Fld 1; Fld 0]); (false, [Fld 1])] in
+  let readers := [mkReader 0 0 [Fld 1; Fld 0]; mkReader 0 0 [Fld 1]] in
   let s := after sh readers [] [] v [] in
   st_queue (fst (do_set sh ([], []) s [] (Lst [Num 4%Z; Lst [Num 5%Z; Num 6%Z]]))) = [0; 1].
 Proof. vm_compute. reflexivity. Qed.
+
+(** ---- the general simulation (all subscriber kinds) and the scheduled-effects one ---- *)
+
+(** every reader is an executor-scheduled effect whose first run is scheduled too (Effect::new,
+    a Memo read by an Effect, Effect::new_isomorphic): no ImmediateEffect, no RenderEffect *)
+Definition plain_readers (readers : list reader) : Prop :=
+  Forall (fun rd => rd_kind rd <> 1 /\ rd_kind rd <> 2) readers.
+
+Lemma plain_nth readers e :
+  plain_readers readers -> rd_kind (nth e readers no_reader) <> 1 /\ rd_kind (nth e readers no_reader) <> 2.
+Proof.
+  intros H. revert e. induction H as [|rd l Hrd Hl IH]; intros e.
+  - destruct e; cbn; split; discriminate.
+  - destruct e as [|e]; cbn [nth]; [exact Hrd | apply IH].
+Qed.
+
+Lemma mark_dirty_plain sh readers kc s e :
+  plain_readers readers -> mark_dirty sh readers kc s e = wake s e.
+Proof.
+  intros H. unfold mark_dirty. destruct (plain_nth readers e H) as [H1 _].
+  apply Nat.eqb_neq in H1. rewrite H1. reflexivity.
+Qed.
+
+Lemma fold_left_ext {A B} (f g : A -> B -> A) l : (forall a b, f a b = g a b) ->
+  forall a, fold_left f l a = fold_left g l a.
+Proof.
+  intros H. induction l as [|b l IH]; intros a; cbn [fold_left]; [reflexivity|]. rewrite H. apply IH.
+Qed.
+
+Lemma notify_all_g_ext md md' : (forall s e, md s e = md' s e) ->
+  forall s ts, notify_all_g md s ts = notify_all_g md' s ts.
+Proof.
+  intros H s ts. unfold notify_all_g. apply fold_left_ext. intros a t. unfold notify_trig_g.
+  apply fold_left_ext. exact H.
+Qed.
+
+Lemma do_step_g_ext md md' sh readers sched kc s h : (forall s e, md s e = md' s e) ->
+  do_step_g md sh readers sched kc s h = do_step_g md' sh readers sched kc s h.
+Proof.
+  intros H. unfold do_step_g, do_set_g, do_patch_g.
+  destruct h as [chain v|chain v|chain|chain ks|e|]; try reflexivity.
+  - destruct (walk (root_reached sh s) chain 0) as [r j].
+    destruct (negb (Nat.eqb j (length chain))); [reflexivity|].
+    destruct (r_val r); [|reflexivity]. rewrite (notify_all_g_ext md md' H). reflexivity.
+  - destruct (walk (root_reached sh s) chain 0) as [r j].
+    destruct (negb (Nat.eqb j (length chain))); [reflexivity|].
+    destruct (r_val r) as [old|]; [|reflexivity].
+    destruct (patch_val (r_sh r) old v (r_segs r)) as [v0 ps]. rewrite (notify_all_g_ext md md' H). reflexivity.
+  - rewrite H. reflexivity.
+Qed.
+
+Lemma do_steps_g_ext mdf mdf' sh readers sched : (forall kc s e, mdf kc s e = mdf' kc s e) ->
+  forall hs kcs s, do_steps_g mdf sh readers sched kcs s hs = do_steps_g mdf' sh readers sched kcs s hs.
+Proof.
+  intros H. induction hs as [|h hs IH]; intros kcs s; cbn [do_steps_g]; [reflexivity|].
+  rewrite (do_step_g_ext (mdf (hd ([], []) kcs)) (mdf' (hd ([], []) kcs))) by (apply H).
+  destruct (do_step_g (mdf' (hd ([], []) kcs)) sh readers sched (hd ([], []) kcs) s h) as [o s1].
+  rewrite IH. reflexivity.
+Qed.
+
+Lemma fold_enqueue m : forall a s,
+  fold_left enqueue (seq a m) s =
+  mkState (st_val s) (st_keys s) (st_subs s) (st_srcs s) (st_queue s ++ seq a m) (st_wakes s)
+          (st_runs s) (st_spos s) (st_last s).
+Proof.
+  induction m as [|m IH]; intros a s; cbn [seq fold_left].
+  - rewrite app_nil_r. destruct s; reflexivity.
+  - rewrite IH. unfold enqueue. cbn [st_val st_keys st_subs st_srcs st_queue st_wakes st_runs st_spos st_last].
+    rewrite <- app_assoc. reflexivity.
+Qed.
+
+Lemma init_general_plain sh readers v :
+  plain_readers readers -> init_general sh readers v = init_state v (length readers).
+Proof.
+  intros H. unfold init_general, init_state.
+  rewrite (fold_left_ext (create sh readers) enqueue).
+  - rewrite fold_enqueue. reflexivity.
+  - intros s e. unfold create. destruct (plain_nth readers e H) as [H1 H2].
+    apply Nat.eqb_neq in H1. apply Nat.eqb_neq in H2. rewrite H1, H2. reflexivity.
+Qed.
+
+(** for such readers the simulation that is run against the implementation IS the one the
+    theorems above are about ([after] is its final state) *)
+Theorem simulate_plain_eq sh v readers hs sched kcs :
+  plain_readers readers -> simulate sh v readers hs sched kcs = simulate_plain sh v readers hs sched kcs.
+Proof.
+  intros H. unfold simulate, simulate_plain. rewrite (init_general_plain sh readers v H).
+  destruct (report (drain (length readers) sh readers sched ([], []) (init_state v (length readers))) []) as [o0 s1].
+  unfold do_steps.
+  rewrite (do_steps_g_ext (mark_dirty sh readers) (fun _ => wake) sh readers sched)
+    by (intros kc s e; apply mark_dirty_plain; exact H).
+  reflexivity.
+Qed.
+
+Lemma simulate_plain_after sh v readers hs sched kcs :
+  last (simulate_plain sh v readers hs sched kcs) (Lst []) = st_val (after sh readers sched kcs v hs).
+Proof.
+  unfold simulate_plain, after, start.
+  destruct (report (drain (length readers) sh readers sched ([], []) (init_state v (length readers))) []) as [o0 s1].
+  cbn [snd]. destruct (do_steps sh readers sched kcs s1 hs) as [os s2]. cbn [snd].
+  change (o0 :: os ++ [st_val s2]) with ((o0 :: os) ++ [st_val s2]). apply last_last.
+Qed.
